@@ -278,7 +278,7 @@ PROPS["C03"] = dict(
     assumptions=COMMON_ASSUME + ["receiver pre-state: concrete heap shape, contexts with bytes-received <= storage length; remembered label None / 3-byte / non-zero 6-byte",
                                  "case split on 'context is for this id / for an aliasing id / absent' by one harness each (literal assume(false) on the excluded case)"],
     prereq_note=["C14 read_all_words", "C17 contract lemmas for SimpleGseMemory"],
-    outside=["storage buffers larger than 65535 bytes (16-bit counters in the context)", "byte strings longer than 16 (24) bytes", "storage larger than 6 bytes"],
+    outside=["storage buffers larger than 70000 bytes (storage up to 70000 bytes, where the 16-bit counters of the context could wrap, is covered by rxl::*_big_storage)", "byte strings longer than 16 (24) bytes", "storage larger than 6 bytes"],
 )
 
 
@@ -576,3 +576,12 @@ SLOTIDX = H("smt::slot_index", required=False, kind="smt", smt="slotidx", replay
             cost=20, timeout=600, mem_gb=16)
 PROPS["C17"]["harnesses"] += [SLOTIDX]
 PROPS["C05"]["harnesses"] += [SLOTIDX]
+
+# storage buffers beyond 65535 bytes: the region where the reassembly context's 16-bit byte
+# counter and the 16-bit total-length comparison could wrap (defect D16)
+def rxl_big(names):
+    return [H(f"rxl::{n}", bounds="as the lattice of the same name, with storage buffers 0..=70000 bytes and any offset 0..=65535 already stored", unwind=8, stubs=STUB_HDR, cost=60, mem_gb=6, timeout=900) for n in names]
+
+
+for _p in ("C03", "C05", "C08"):
+    PROPS[_p]["harnesses"] += rxl_big(["intermediate_lattice_big_storage", "end_lattice_big_storage"])
